@@ -66,9 +66,11 @@ def h_step_direct(ctx, ploidy, hapx, naming, k, classes):
         ctx.cover("rescaled", r != ploidy and r > 0)
 
 
-def h_step_call(ctx, ploidy, hapx, naming, thresholds, nan_row=None):
-    """do_call(method=threshold) with concrete threshold vectors, symbolic log2."""
-    classes = ["auto", "x", "y"]
+def h_step_call(ctx, ploidy, hapx, naming, thresholds, nan_row=None, classes=None):
+    """do_call(method=threshold) with concrete threshold vectors, symbolic log2.  `classes`: the
+    chromosome class of each of the three rows (default one of each; a revisited chromosome --
+    rows of one chromosome not contiguous -- is a table do_call accepts)."""
+    classes = list(classes or ["auto", "x", "y"])
     Ls = [ctx.real(f"L{i}", -30, 30) for i in range(3)]
     if nan_row is not None:
         Ls[nan_row] = float("nan")
@@ -198,6 +200,9 @@ def _step_call_cfgs():
             out.append({"ploidy": ploidy, "hapx": hapx, "naming": "plain", "thresholds": [-2.0, -1.0, -0.5, 0.0, 0.25, 0.5, 1.0], "tier": "thorough"})
             for nr in (0, 1, 2):
                 out.append({"ploidy": ploidy, "hapx": hapx, "naming": "chr", "thresholds": None, "nan_row": nr})
+    for ploidy in (2, 3):
+        out.append({"ploidy": ploidy, "hapx": True, "naming": "chr", "thresholds": None, "classes": ["x", "auto", "x"]})
+        out.append({"ploidy": ploidy, "hapx": False, "naming": "plain", "thresholds": None, "classes": ["auto", "y", "auto"], "nan_row": 2})
     return out
 
 
